@@ -76,13 +76,6 @@ func run(t *testing.T, sc scenario, want []byte, xid uint32) (res result) {
 			defer c3()
 		}
 		defer cancel()
-		done := make(chan struct{})
-		go func() {
-			defer close(done)
-			res.resp, res.gotMsg, res.err = c.SendAndRead(ctx, dests[sc.Dest], req, nil)
-			res.retAt = time.Since(start)
-			res.returned = true
-		}()
 		if sc.Accept >= 0 && sc.Off == "inwrite" {
 			// a server that answers at once: the response to transmission #k is read and routed by the receive loop
 			// before the client's WriteTo has returned
@@ -95,6 +88,13 @@ func run(t *testing.T, sc scenario, want []byte, xid uint32) (res result) {
 				conn.WaitReads(n + 1)
 			}
 		}
+		done := make(chan struct{})
+		go func() {
+			defer close(done)
+			res.resp, res.gotMsg, res.err = c.SendAndRead(ctx, dests[sc.Dest], req, nil)
+			res.retAt = time.Since(start)
+			res.returned = true
+		}()
 		tries := sc.N
 		if tries < 0 {
 			tries = 10 // unbounded retries: observe the first 10 transmissions, then cancel
